@@ -429,6 +429,22 @@ def step (st : St) (line : String) : St × String :=
       | none => (st, "err Deserialize")
       | some re => (st, "ok len=" ++ toString re.length ++ " rt=" ++ (if re = bs then "1" else "0"))
     | _ => (st, "bad-op")
+  | "trace" :: cfg :: sHex :: rest =>
+    -- the tracing relation on the real scalars: sum of marker_i * tracer_i = s in the scalar field
+    -- (`rest` = tracer scalars then markers, same number of each)
+    let le := cfg != "p256"
+    let order : Nat := if cfg == "p256" then 0xffffffff00000000ffffffffffffffffbce6faada7179e84f3b9cac2fc632551
+      else 2 ^ 252 + 27742317777372353535851937790883648493
+    let toNat (bs : List UInt8) : Nat :=
+      (if le then bs.reverse else bs).foldl (fun acc b => acc * 256 + b.toNat) 0
+    match unhex sHex, rest.mapM unhex with
+    | some sb, some vals =>
+      let k := vals.length / 2
+      let ts := (vals.take k).map toNat
+      let ms := (vals.drop k).map toNat
+      let sum := (List.zipWith (· * ·) ts ms).foldl (· + ·) 0
+      (st, if vals.length % 2 == 0 && sum % order == toNat sb % order then "ok 1" else "ok 0")
+    | _, _ => (st, "bad-hex")
   | ["mac", cfg, a, b] =>
     -- would `refresh` accept the user key `b`, given that `a` was issued (bytes of both)?
     let c := if cfg == "p256" then Wire.cfgP256 else Wire.cfgC25519
